@@ -16,6 +16,9 @@ func sameArray(a, b []byte) bool {
 	return unsafe.Pointer(&a[:1][0]) == unsafe.Pointer(&b[:1][0])
 }
 
+// dataPtr is the pointer word of a slice header (unsafe.SliceData needs go1.20 language level)
+func dataPtr(b []byte) unsafe.Pointer { return *(*unsafe.Pointer)(unsafe.Pointer(&b)) }
+
 func runC10(c *Ctx) {
 	c.res.Rule = "Seal/Open on every path with dst of (len, cap) in {0,1,7,16,17} x {len, len+n-1, len+n, len+n+5}, dst = nil, dst = empty non-nil, dst = in[:0] (in-place) with and without spare capacity, every length class; every call is made twice on the same buffers; key, nonce, aad and the input text are snapshotted and compared afterwards; SM3 Sum(in) with spare capacity; SM2 entry points leave their inputs unchanged; class = (operation, path, dst shape, length class, which part of the contract)"
 	paths := gcmPaths()
@@ -35,87 +38,168 @@ func runC10(c *Ctx) {
 		}
 	}
 	shapes = append(shapes, dstShape{"nil", 0, 0, "nil"}, dstShape{"empty-nonnil", 0, -1000, "plain"}, dstShape{"inplace/nospare", 0, 0, "inplace-tight"}, dstShape{"inplace/spare", 0, 0, "inplace-spare"})
+	hx := func(b []byte) string {
+		if len(b) == 0 {
+			return "-"
+		}
+		return fmt.Sprintf("%x", b)
+	}
+	// one call shape; variant "" = honest call, "tamper" = one ciphertext/tag bit flipped (Open),
+	// "short" = ciphertext shorter than the tag (Open), "badnonce" = nonce one byte too long
+	runCase := func(p gcmPath, pl int, sh dstShape, op, variant string) {
+		ts := 12 + (pl+sh.l)%5
+		key, nonce, aad, pt := c.rng.Bytes(16), c.rng.Bytes(12), c.rng.Bytes(c.rng.Intn(40)), c.rng.Bytes(pl)
+		a, err := p.mk(key, 12, ts)
+		if a == nil || err != nil {
+			return
+		}
+		ref, _ := paths[len(paths)-1].mk(key, 12, ts)
+		ct := ref.Seal(nil, nonce, pt, aad)
+		in := pt
+		n := pl + ts
+		want := ct
+		if op == "open" {
+			in = ct
+			n = pl
+			want = pt
+		}
+		expect := ""
+		switch variant {
+		case "tamper":
+			in = append([]byte(nil), in...)
+			in[c.rng.Intn(len(in))] ^= 1 << uint(c.rng.Intn(8))
+			expect = "err"
+		case "short":
+			in = in[:c.rng.Intn(ts)]
+			n = 0
+			expect = "err"
+		case "badnonce":
+			nonce = append(nonce, 7)
+			expect = "panic"
+		}
+		// build the input buffer and dst
+		var inBuf, dst []byte
+		prefix := c.rng.Bytes(sh.l)
+		switch sh.kind {
+		case "nil":
+			inBuf = append([]byte(nil), in...)
+			dst = nil
+		case "inplace-tight":
+			inBuf = append(make([]byte, 0, len(in)), in...)
+			dst = inBuf[:0]
+		case "inplace-spare":
+			inBuf = append(make([]byte, 0, len(in)+ts+8), in...)
+			dst = inBuf[:0]
+		default:
+			inBuf = append([]byte(nil), in...)
+			capd := sh.l + n + sh.extra
+			if sh.extra == -1000 || capd < sh.l {
+				capd = sh.l
+			}
+			dst = append(make([]byte, 0, capd), prefix...)
+		}
+		inplace := sh.kind == "inplace-tight" || sh.kind == "inplace-spare"
+		cl := fmt.Sprintf("%s/%s/%s/%s", op, p.name, sh.name, lenClass(pl))
+		if variant != "" {
+			cl += "/" + variant
+		}
+		args := fmt.Sprintf("%s %s %s %s %d %d %d %s %s 12", hx(key), hx(nonce), hx(aad), hx(in), ts, len(dst), cap(dst), sh.kind, hx(dst))
+		req := fmt.Sprintf("gcm.%sglue %s", op, args)
+		specReq := fmt.Sprintf("gcm.%sglue.spec %s", op, args)
+		if expect == "" {
+			expect = fmt.Sprintf("ok %x", append(append([]byte(nil), dst...), want...))
+		}
+		for round := 1; round <= 2; round++ {
+			if inplace && round == 2 && variant == "" {
+				break // the input was legitimately overwritten by the first call
+			}
+			// everything the caller can see, up to the capacities, before this call
+			inFull, dstFull := inBuf[:cap(inBuf)], dst[:cap(dst)]
+			snapKey, snapNonce, snapAad := append([]byte(nil), key...), append([]byte(nil), nonce...), append([]byte(nil), aad...)
+			snapIn, snapDst := append([]byte(nil), inFull...), append([]byte(nil), dstFull...)
+			var out []byte
+			impl := try(func() string {
+				if op == "seal" {
+					out = a.Seal(dst, nonce, inBuf, aad)
+				} else {
+					var err error
+					out, err = a.Open(dst, nonce, inBuf, aad)
+					if err != nil {
+						return "err"
+					}
+				}
+				return fmt.Sprintf("ok %x", out)
+			})
+			c.Case("gcm.buffers", cl, false, req)
+			if impl != expect {
+				c.Disagree(Disagreement{Kind: "impl!=spec", Class: fmt.Sprintf("%s/result/call%d", cl, round), Request: req, Impl: impl, Spec: expect, Stream: "gcm.buffers"})
+				break
+			}
+			// the implementation's view in the format of the model: returned bytes, pointer shared
+			// with dst, and whether any byte visible to the caller changed outside the appended
+			// region ret[len(dst) : len(dst)+n] (inputs, dst's prefix, dst's remaining capacity)
+			shares := dst != nil && out != nil && dataPtr(out) == dataPtr(dst)
+			view := impl
+			if impl != "panic" {
+				lo, hi := 0, 0 // the appended region, as indices into dst's array
+				if impl != "err" && shares {
+					lo, hi = len(dst), len(out)
+				}
+				same := bytes.Equal(key, snapKey) && bytes.Equal(nonce, snapNonce) && bytes.Equal(aad, snapAad)
+				for i := range dstFull {
+					if (i < lo || i >= hi) && dstFull[i] != snapDst[i] {
+						same = false
+					}
+				}
+				for i := range inFull {
+					if inplace && i >= lo && i < hi {
+						continue // dst and the input are the same array from the same address on
+					}
+					if inFull[i] != snapIn[i] {
+						same = false
+					}
+				}
+				inputs := "inputs=unchanged"
+				if !same {
+					inputs = "inputs=changed"
+				}
+				if impl == "err" {
+					view = "err " + inputs
+				} else {
+					view = fmt.Sprintf("ok %s shares=%v %s", hx(out), shares, inputs)
+				}
+			}
+			if !c.Check3("gcm.buffers", fmt.Sprintf("%s/call%d", cl, round), req, specReq, view) {
+				break
+			}
+		}
+	}
 	for _, p := range paths {
 		for _, pl := range lens {
 			for _, sh := range shapes {
 				for _, op := range []string{"seal", "open"} {
-					ts := 12 + (pl+sh.l)%5
-					key, nonce, aad, pt := c.rng.Bytes(16), c.rng.Bytes(12), c.rng.Bytes(c.rng.Intn(40)), c.rng.Bytes(pl)
-					a, err := p.mk(key, 12, ts)
-					if a == nil || err != nil {
-						continue
-					}
-					ref, _ := paths[len(paths)-1].mk(key, 12, ts)
-					ct := ref.Seal(nil, nonce, pt, aad)
-					in := pt
-					n := pl + ts
-					want := ct
-					if op == "open" {
-						in = ct
-						n = pl
-						want = pt
-					}
-					// build the input buffer and dst
-					var inBuf, dst []byte
-					prefix := c.rng.Bytes(sh.l)
-					switch sh.kind {
-					case "nil":
-						inBuf = append([]byte(nil), in...)
-						dst = nil
-					case "inplace-tight":
-						inBuf = append(make([]byte, 0, len(in)), in...)
-						dst = inBuf[:0]
-					case "inplace-spare":
-						inBuf = append(make([]byte, 0, len(in)+ts+8), in...)
-						dst = inBuf[:0]
-					default:
-						inBuf = append([]byte(nil), in...)
-						capd := sh.l + n + sh.extra
-						if sh.extra == -1000 || capd < sh.l {
-							capd = sh.l
-						}
-						dst = append(make([]byte, 0, capd), prefix...)
-					}
-					snapKey, snapNonce, snapAad, snapIn := append([]byte(nil), key...), append([]byte(nil), nonce...), append([]byte(nil), aad...), append([]byte(nil), inBuf...)
-					inplace := sh.kind == "inplace-tight" || sh.kind == "inplace-spare"
-					cl := fmt.Sprintf("%s/%s/%s/%s", op, p.name, sh.name, lenClass(pl))
-					req := fmt.Sprintf("gcm.%s dst=(%d,%d,%s) key=%x nonce=%x aad=%x in=%x tag=%d", op, len(dst), cap(dst), sh.kind, key, nonce, aad, in, ts)
-					expect := fmt.Sprintf("ok %x", append(append([]byte(nil), dst...), want...))
-					for round := 1; round <= 2; round++ {
-						if inplace && round == 2 {
-							break // the input was legitimately overwritten by the first call
-						}
-						var out []byte
-						impl := try(func() string {
-							if op == "seal" {
-								out = a.Seal(dst, nonce, inBuf, aad)
-							} else {
-								var err error
-								out, err = a.Open(dst, nonce, inBuf, aad)
-								if err != nil {
-									return "err"
-								}
-							}
-							return fmt.Sprintf("ok %x", out)
-						})
-						c.Case("gcm.buffers", cl, false, req)
-						if impl != expect {
-							c.Disagree(Disagreement{Kind: "impl!=spec", Class: fmt.Sprintf("%s/result/call%d", cl, round), Request: req, Impl: impl, Spec: expect, Stream: "gcm.buffers"})
-							break
-						}
-						// shares dst's array iff there was room
-						if cap(dst) > 0 && (cap(dst)-len(dst) >= n) != sameArray(out, dst) && n > 0 {
-							c.Disagree(Disagreement{Kind: "impl!=spec", Class: cl + "/append-reuse", Request: req, Impl: fmt.Sprintf("shares=%v", sameArray(out, dst)), Spec: fmt.Sprintf("shares=%v", cap(dst)-len(dst) >= n), Stream: "gcm.buffers"})
-						}
-						if !bytes.Equal(key, snapKey) || !bytes.Equal(nonce, snapNonce) || !bytes.Equal(aad, snapAad) {
-							c.Disagree(Disagreement{Kind: "impl!=spec", Class: cl + "/key-nonce-aad-modified", Request: req, Impl: "modified", Spec: "unchanged", Stream: "gcm.buffers"})
-						}
-						if !inplace && !bytes.Equal(inBuf, snapIn) {
-							c.Disagree(Disagreement{Kind: "impl!=spec", Class: fmt.Sprintf("%s/input-modified/call%d", cl, round), Request: req, Impl: fmt.Sprintf("%x", inBuf), Spec: fmt.Sprintf("%x", snapIn), Stream: "gcm.buffers"})
-							break
-						}
-					}
+					runCase(p, pl, sh, op, "")
 				}
+			}
+		}
+	}
+	// failing and panicking calls: nothing may change, whatever dst looks like
+	for _, p := range paths {
+		for _, pl := range []int{0, 1, 16, 33, 100, 257} {
+			for _, sh := range shapes {
+				if sh.l != 0 && sh.l != 7 {
+					continue
+				}
+				inplace := sh.kind == "inplace-tight" || sh.kind == "inplace-spare"
+				if !(inplace && p.name == "stdlib-generic") {
+					// crypto/cipher's own GCM wipes the would-be output region on a failed Open, which
+					// the AEAD contract permits ("the contents of dst, up to its capacity, may be
+					// overwritten"); with dst = ciphertext[:0] that region is the ciphertext itself
+					runCase(p, pl, sh, "open", "tamper")
+				}
+				runCase(p, pl, sh, "open", "short")
+				runCase(p, pl, sh, "seal", "badnonce")
+				runCase(p, pl, sh, "open", "badnonce")
 			}
 		}
 	}
